@@ -80,6 +80,21 @@ Theorem C20_vptr_roundtrip : forall p, vp_fid p < two32 -> vp_len p < two32 -> v
 Proof. exact C20Proofs.vptr_roundtrip. Qed.
 Print Assumptions C20_vptr_roundtrip.
 
+(* decode-then-encode: every well-formed stored internal key longer than 8 bytes IS the encoding of
+   its parsed user key and version, so the theorems above cover every key a table or memtable holds *)
+Theorem C20_key_decode_encode : forall ik, wf_bytes ik = true -> (8 < length ik)%nat ->
+  key_with_ts (parse_key ik) (parse_ts ik) = ik /\ parse_ts ik < two64 /\ parse_key ik <> [].
+Proof. exact C20Proofs.key_with_ts_parse. Qed.
+Print Assumptions C20_key_decode_encode.
+Example C20_key_decode_encode_ex : wf_bytes [107; 255; 255; 255; 255; 255; 255; 255; 250] = true /\ (8 < 9)%nat.
+Proof. split; [reflexivity|repeat constructor]. Qed.
+
+Theorem C20_compare_stored_keys : forall a b, wf_bytes a = true -> wf_bytes b = true ->
+  (8 < length a)%nat -> (8 < length b)%nat ->
+  compare_keys a b = Some (key_order (parse_key a) (parse_ts a) (parse_key b) (parse_ts b)).
+Proof. exact C20Proofs.compare_keys_raw. Qed.
+Print Assumptions C20_compare_stored_keys.
+
 (* valuePointer.Less (fid, then offset, then len) is a strict total order on value pointers *)
 Theorem C20_vptr_less_strict_total : forall p q r,
   vptr_less p p = false
